@@ -109,3 +109,38 @@ func VerifC09Locks() {
 	vAssert(cp == want2, "C09/unlock-never-happens-twice")
 	vAssert(supply() == sup, "C09/ticks-do-not-change-supply")
 }
+
+// C09 with TWO owners: p locks y1 of its x1 until u1, q locks y2 of its x2 until u2 (all symbolic), one tick
+// with a symbolic epoch. Each owner gets back exactly its own lock, whatever the other one's is. Cover points
+// force witnesses in which BOTH owners have locked their ENTIRE balance until the SAME epoch, so that neither
+// has an account record when the tick returns the funds: the replays of those witnesses run on the real VM,
+// where a struct is a reference (an "empty account" value shared between two credits of one invocation is
+// invisible to the symbolic side, which gives structs Go's value semantics — DESIGN.md 3).
+func VerifC09TwoOwners() {
+	viaNetmap := vParam(0) == 1
+	deployBalanceWorld()
+	p, q, l1, l2 := vAcct("p"), vAcct("q"), vAcct("L1"), vAcct("L2")
+	x1, x2, y1, y2, u1, u2, e := vInt("x1"), vInt("x2"), vInt("y1"), vInt("y2"), vInt("u1"), vInt("u2"), vInt("e")
+	vAssume(x1 >= 1 && x1 <= 1000000 && x2 >= 1 && x2 <= 1000000 && y1 >= 1 && y1 <= x1 && y2 >= 1 && y2 <= x2)
+	vAssume(u1 >= 1 && u1 <= 300 && u2 >= 1 && u2 <= 300 && e >= 1 && e <= 300)
+	vAssume(mint(p, x1))
+	vAssume(mint(q, x2))
+	vAssume(lockFunds(1, p, l1, y1, u1))
+	vAssume(lockFunds(2, q, l2, y2, u2))
+	sup := supply()
+	vAssume(tick(viaNetmap, e))
+	wantP, wantQ := x1-y1, x2-y2
+	if u1 <= e {
+		wantP = x1
+	}
+	if u2 <= e {
+		wantQ = x2
+	}
+	vAssert(balOf(p) == wantP && balOf(q) == wantQ, "C09/each-owner-gets-back-exactly-its-own-lock")
+	vAssert(balOf(l1)+balOf(l2)+balOf(p)+balOf(q) == sup && supply() == sup, "C09/ticks-do-not-change-supply")
+	// the same observation under C01 (this harness is also registered there): supply = sum of balances
+	vAssert(balOf(l1)+balOf(l2)+balOf(p)+balOf(q) == supply(), "C01/sum-equals-supply")
+	vCoverIf(y1 == x1 && y2 == x2 && u1 == u2 && u1 <= e && y1 != y2, "both-owners-locked-everything-until-the-same-epoch")
+	vCoverIf(y1 == x1 && y2 < x2 && u1 <= e && u2 <= e, "one-owner-locked-everything")
+	vCoverIf(u1 <= e && u2 > e, "only-the-first-lock-expired")
+}
